@@ -370,7 +370,8 @@ fn roundtrip(y: &str) -> Value {
         json!({"v1": v1, "yml_eq": yml_eq, "json_eq": json_eq,
                "v2": if yml_eq { Value::Null } else { json!(v2) }, "v3": if json_eq { Value::Null } else { json!(v3) },
                "valid": valid.is_ok(), "valid_err": valid.err().map(|e| e.to_string()),
-               "tree": if w.valid().is_ok() { w.tree_output() } else { String::new() }})
+               "tree": if w.valid().is_ok() { w.tree_output() } else { String::new() },
+               "nodes": if w.valid().is_ok() { verif::tree(&w) } else { Value::Null }})
     })
     .unwrap_or(json!({"panic": true}))
 }
